@@ -110,6 +110,7 @@ func genericPack(c *Ctx) {
 	ruleInPlaceFilter(c, "G-INPLACE-FILTER-PARAM", pkgs)
 	ruleIndexedReturn(c, "G-INDEXED-RETURN-SORTED", pkgs)
 	ruleMemoDropsResult(c, "G-MEMO-DROPS-RESULT", pkgs)
+	ruleMapAliasMutated(c, "G-MAP-ALIAS-MUTATED", pkgs)
 	if c.Prop != "C15" { // C15 runs R-DEFER over the whole module
 		c.Rule("G-DEFER-KEEPS-ERR", "a deferred assignment to a named error result joins, wraps or is guarded by the current value", 0)
 		ruleDefer(c, "G-DEFER-KEEPS-ERR", pkgs)
